@@ -127,6 +127,8 @@ package memmetrics
 //@   assume clock_stable
 //@   requires cfgOK(c) && RC(c) && cfgOK(o) && RC(o) && c != o && backing(c.values) != backing(o.values) && lastclock >= (len(c.values) + 1) * c.resolution && lastclock >= (len(o.values) + 1) * o.resolution
 //@   modifies elems(c.values), elems(o.values), c.lastUpdated, c.countedBuckets, c.lastBucket, RollingCounter.gsum, c.tclean, o.tclean
+//@   ensures keeps_both_invariants: RC(c) && cfgOK(c) && RC(o) && cfgOK(o)
+//@   ensures counted_in_current_slot: c.gsum[sl(c, lastclock)] == old(c.gsum[sl(c, lastclock)]) + callres(Count, 0, 0)
 //@   ensures source_is_expired_before_it_is_read: calls(Count) == 1 && callarg(Count, 0, 0) == o && calls(Inc) == 1 && callarg(Inc, 0, 0) == c && callarg(Inc, 0, 1) == callres(Count, 0, 0) && before(Count, Inc)
 
 //@ type RatioCounter
@@ -407,18 +409,34 @@ package memmetrics
 //@   ensures private_copy: result != nil && fresh(result)
 
 // The split itself is proved: a value is an outlier iff it exceeds (median + median absolute deviation) x threshold, both
-// taken over the values plus one sentinel when their number is even. median / medianAbsoluteDeviation (sort.Float64s) are
-// trusted contracts with a bounded stand-in (/verif/bounded/C10).
+// taken over the values plus one sentinel when their number is even. median and medianAbsoluteDeviation are proved over an
+// assumed contract of sort.Float64s: afterwards position k holds the k-th order statistic kth(q, n, k) of the previous
+// contents q. kth is a function of the first n elements only (axiom, skolemised extensionality) and is monotone in k.
+//@ spec kth(q realseq, n int, k int) real
+//@ spec seqdiff(a realseq, b realseq, n int) int
+//@ axiom kth_depends_on_the_first_n_elements_only: forall a realseq, b realseq, n int, k int {kth(a, n, k), kth(b, n, k)} :: kth(a, n, k) == kth(b, n, k) || (0 <= seqdiff(a, b, n) && seqdiff(a, b, n) < n && seqat(a, seqdiff(a, b, n)) != seqat(b, seqdiff(a, b, n)))
+//@ axiom kth_is_sorted: forall q realseq, n int, i int, j int {kth(q, n, i), kth(q, n, j)} :: 0 <= i && i <= j && j < n ==> kth(q, n, i) <= kth(q, n, j)
+//@ pred medianOf(q realseq, n int) = ite(n % 2 != 0, kth(q, n, n / 2), (kth(q, n, n / 2 - 1) + kth(q, n, n / 2)) / 2.0)
+//@ extern sort.Float64s
+//@   params x
+//@   modifies elems(x)
+//@   nopanic
+//@   ensures holds_the_order_statistics_of_what_it_held: forall k int :: 0 <= k && k < len(x) ==> x[k] == kth(old(content(x)), len(x), k)
 //@ func median
 //@   props C10
-//@   trusted
 //@   nopanic
+//@   requires len(values) >= 1
 //@   modifies nothing
+//@   ensures middle_of_the_sorted_values: result == medianOf(content(values), len(values))
 //@ func medianAbsoluteDeviation
 //@   props C10
-//@   trusted
 //@   nopanic
+//@   requires len(values) >= 1
 //@   modifies nothing
+//@   ensures two_medians: calls(median) == 2 && callarg(median, 0, 0) == values && result == callres(median, 1, 0)
+//@   at_call median deviations_from_the_median_of_the_sample: calls(median) == 1 ==> len(arg0) == len(values) && fresh(backing(arg0)) && (forall j int :: 0 <= j && j < len(values) ==> arg0[j] == ite(values[j] - callres(median, 0, 0) >= 0.0, values[j] - callres(median, 0, 0), callres(median, 0, 0) - values[j]))
+//@   loop 1 invariant -1 <= rangeindex && rangeindex < len(values) && len(distances) == len(values) && fresh(backing(distances))
+//@   loop 1 invariant forall j int :: 0 <= j && j <= rangeindex ==> distances[j] == ite(values[j] - m >= 0.0, values[j] - m, m - values[j])
 //@ func SplitFloat64
 //@   props C10
 //@   modifies nothing
